@@ -66,6 +66,8 @@ def run(ctx):
     scs = scenarios(ctx.tier == "quick")
     if ctx.tier == "quick":      # several concurrent executions make validation expensive: every 9th scenario, offset by the seed
         scs = scs[ctx.seed % 9::9] + scs[-6:]
+    else:                        # thorough: every third scenario of the full grid (about 2.6 k traces of three executions each)
+        scs = scs[ctx.seed % 3::3] + scs[-6:]
     p_c07.run_family(ctx, "bh", scs, props=("C06",))
     # permits taken through the standalone API before the run, successive executions, every nesting of depth <= 2 around the bulkhead
     import seq
